@@ -472,15 +472,16 @@ def build(tier, seed):
     for et in (["TRI3", "QUAD4", "TETRA4"] if tier == "quick" else ["TRI3", "TRI6", "QUAD4", "QUAD8", "TETRA4", "HEXA8"]):
         obs.append(Ob(f"C16.exact.{et}", ob_exact, (et,), "B", ("EasyFEA/FEM/_group_elem.py::_GroupElem.Get_B_e_pg", "EasyFEA/FEM/Operators/Bilinear.py::LinearizedElasticity"),
                       bound="2-element patch, isotropic rational C, symbolic nodal state", clause="energy from the stress/strain fields == 1/2 u'Ku as quadratic forms in u", timeout=900))
-    for dim, mixed in ((2, False), (3, False), (2, True)):
-        obs.append(Ob(f"C16.result.Elastic.{dim}d{'.mixed' if mixed else ''}", ob_result_elastic, (dim, mixed, seed), "X", (f"{SE}::Elastic.Result", f"{SE}::Elastic._Calc_Psi_Elas",
+    seeds_ = range(4) if tier == "thorough" else range(1)
+    for dim, mixed, sd in [(d_, m_, s_) for d_, m_ in ((2, False), (3, False), (2, True)) for s_ in seeds_]:
+        obs.append(Ob(f"C16.result.Elastic.{dim}d{'.mixed' if mixed else ''}" + (f".s{sd}" if sd else ""), ob_result_elastic, (dim, mixed, seed + sd), "X", (f"{SE}::Elastic.Result", f"{SE}::Elastic._Calc_Psi_Elas",
                       f"{MU}::Result_strain_or_stress_field_e", "EasyFEA/Simulations/_simu.py::_Simu.Results_Reshape_values"),
                       bound="one mesh, one random non-equilibrium state (u, v, a)", clause="all advertised names; components vs vectors; Svm; Wdef = 1/2 u'Ku; constants preserved", timeout=300))
     for dim in (2, 3):
         obs.append(Ob(f"C16.reactions.{dim}d", ob_reactions, (dim,), "X", ("EasyFEA/Simulations/_simu.py::_Simu.Solve",), bound="one loaded, constrained patch",
                       clause="reactions on the constrained boundary balance the applied loads", timeout=300))
-    for sim in ("Thermal", "Beam", "Beam3D", "PhaseField", "HyperElastic", "InElastic", "WeakForms"):
-        obs.append(Ob(f"C16.result.{sim}", ob_result_other, (sim, seed), "X", (f"EasyFEA/Simulations/_{sim.lower().replace('3d','')}.py::{sim.replace('3D','')}.Result",), bound="one small mesh, one arbitrary state",
+    for sim, sd in [(m_, s_) for m_ in ("Thermal", "Beam", "Beam3D", "PhaseField", "HyperElastic", "InElastic", "WeakForms") for s_ in seeds_]:
+        obs.append(Ob(f"C16.result.{sim}" + (f".s{sd}" if sd else ""), ob_result_other, (sim, seed + sd), "X", (f"EasyFEA/Simulations/_{sim.lower().replace('3d','')}.py::{sim.replace('3D','')}.Result",), bound="one small mesh, one arbitrary state",
                       clause="every advertised result name is served; displacement components equal the columns of the vector result", timeout=300))
     for algo in ("elliptic", "parabolic", "newmark", "hht", "midpoint"):
         obs.append(Ob(f"C16.reaction.formula.{algo}", ob_calc_reaction, (algo,), "P", ("EasyFEA/Simulations/_simu.py::_Simu.Calc_Reaction",),
